@@ -74,7 +74,9 @@ def run(tier, replay=None):
                 specs.append(psrun.make_spec(q, sem[q["name"]], {"kind": "random", "seed": rng.randrange(1 << 30), "penv": rng.choice([0.3, 0.7])},
                                              name="%s#%s%d" % (q["name"], mode, k), vdr=mode, files=True, post=post[q["name"]],
                                              rel_files=q.get("rel_files") or {}, dir_slash=(q["name"] == "po_dir" and k % 2 == 0),
-                                             phys_paths=(k % 2 == 1)))
+                                             phys_paths=(k % 2 == 1),
+                                             psdir_spelling=rng.choice(["", "slash", "dot", "dslash"]) if k > 0 else
+                                             ("slash" if mode == "rolling" else "")))
     if replay:
         specs = [json.load(open(os.path.join(replay, "spec.json")))]
     res = psrun.run_specs(specs, nproc=16)
@@ -102,7 +104,7 @@ def run(tier, replay=None):
     }, [
         "signature catalogue: file, user file types (also with a dotted name), path directories, explicit output names, arrays (also 11 elements: two-digit names), typed maps, structs with files incl. explicit member names and members declared after string / map members, arrays and maps of structs, empty and null collections, null and missing files, symbolic links and relative link chains, strings holding paths, sub-pipelines, mapped producers",
         "for outputs that are symbolic links the record names the link's destination by design; required is only that the file is available with its content at the derived location under outs/",
-        "files outside the pipestance and mapped top-level calls are not covered",
+        "mapped top-level calls are not covered; the pipestance directory is handed to the runtime clean, with a trailing slash, with a /./ component or a doubled separator (as --psdir passes an absolute path on verbatim)",
         "post-processing is executed by the driver in the order cmd/mrp uses (VDRKill, PostProcess)",
     ], time.time() - t0, violations=nunk)
     return rc
